@@ -74,13 +74,14 @@ Definition is_cpp (ch : choice) : bool := match ch with CPp _ _ _ => true | _ =>
 Lemma core_step_other c s ch tab : c_idem c = true -> is_cpp ch = false ->
   places_ok (PE (g_epoch s)) s -> Forall (core tab) (flat s) ->
   (forall x, ch = CSubmit x -> g_close_req s = false -> g_panic s = None -> ~ In (m_id x) (map fst tab)) ->
+  g_epoch (step c s ch) = g_epoch s ->
   Forall (core tab) (flat (step c s ch)).
 Proof.
-  intros Hi Hc Hp Hf Hsub.
+  intros Hi Hc Hp Hf Hsub Hee.
   assert (H0 : places_ok (PT (g_epoch s) tab) s).
   { eapply places_and; [exact Hp | apply flat_places, Hf | | |]; cbn [PT PQ PL PB]; intros; split; assumption. }
   assert (H1 : places_ok (PT (g_epoch s) tab) (step c s ch)).
-  { apply (step_places _ False); [exact H0 | apply transfers_PT, Hi | intros t p ls ->; discriminate | |].
+  { apply (step_places _ False); [exact H0 | apply transfers_PT, Hi | intros t p ls ->; discriminate | | | left; exact Hee].
     - intros x -> Hcr Hnp. split; [apply PE_submit|]. intros _. split; [intros Hh; discriminate | intros _; apply (Hsub x eq_refl Hcr Hnp)].
     - split; [apply PE_shutdown | intros Hd; discriminate]. }
   eapply places_flat; [exact H1 | | |]; cbn [PT PQ PL PB]; intros; tauto.
@@ -104,6 +105,7 @@ Lemma run_pp_core sA t p x m0 ls :
   let s' := run_pp c sA (t, p) x m0 ls in
   let I := m0 :: pp_msgs (pr_st x) in
   let E := g_epoch sA in let SQ := seq_get (t, p) (g_seqs sA) in
+  g_epoch s' = g_epoch sA ->
   exists effs n,
     stamps_ok t p SQ E effs n /\
     txn_of s' = txn_effs (txn_of sA) effs /\
@@ -111,15 +113,18 @@ Lemma run_pp_core sA t p x m0 ls :
     (g_panic s' = None -> forall m', In m' (newL effs) -> In m' (flat s')) /\
     (forall m', In m' (newL effs) -> exists m sq, In m I /\ m' = set_stamp m sq E /\ fresh_pass m = true /\ is_data m = true).
 Proof.
-  intros Hp Hm0 Hx s' I E SQ. subst s'. unfold run_pp. cbn [fst snd].
-  match goal with |- context [pp_step c t p (pr_st x) m0 ?ab ?stamp ls] => set (AB := ab); set (ST := stamp) end.
+  intros Hp Hm0 Hx s' I E SQ Hee. subst s'. unfold run_pp in *. cbn [fst snd] in *.
+  match goal with |- context [pp_step c t p (pr_st x) m0 ?ab ?stamp ls] => set (AB := ab) in *; set (ST := stamp) in * end.
+  assert (HB : bumps (snd (pp_step c t p (pr_st x) m0 AB ST ls)) = 0).
+  { destruct (pp_step c t p (pr_st x) m0 AB ST ls) as [st0 effs0]. cbn [snd]. rewrite epoch_apply_effs in Hee. cbn [set_pps g_epoch] in Hee. lia. }
+  clear Hee.
   assert (Hup0 : upf m0) by (destruct Hm0 as [[_ [H _]] _]; exact H).
   assert (HupI : Forall upf (pp_msgs (pr_st x))) by (eapply Forall_impl; [|exact Hx]; intros a [[_ [H _]] _]; exact H).
-  destruct (pp_step_stamps c t p E (pr_st x) m0 AB ST ls Hup0 HupI eq_refl) as [n Sn].
+  destruct (pp_step_stamps c t p E (pr_st x) m0 AB ST ls Hup0 HupI eq_refl HB) as [n Sn].
   pose proof (transfers_PV c E SQ I m0 (or_introl eq_refl)) as TV.
   assert (HI : Forall (PL (PV E SQ I m0) (t, p)) (pp_msgs (pr_st x))).
   { rewrite Forall_forall. intros a Ha. cbn [PV PL]. right. exact Ha. }
-  destruct (pp_step_okP (PV E SQ I m0) c E (fun _ => SQ) TV t p (pr_st x) m0 AB ST ls HI eq_refl eq_refl eq_refl) as [V1 V2].
+  destruct (pp_step_okP (PV E SQ I m0) c E (fun _ => SQ) TV t p (pr_st x) m0 AB ST ls HI eq_refl eq_refl eq_refl (or_introl HB)) as [V1 V2].
   pose proof (ppsh_pp c t p (pr_st x) m0 AB ST ls) as Sh.
   destruct (pp_step c t p (pr_st x) m0 AB ST ls) as [st' effs]. cbn [fst snd] in *.
   exists effs, n. split; [exact Sn|]. split; [rewrite txn_apply_effs; reflexivity|].
@@ -240,7 +245,7 @@ Lemma run_pp_tab c sA t p x m0 ls tab : c_idem c = true ->
     (forall i st, In (i, st) tab' -> In (i, st) tab \/ (~ In i (map fst tab) /\ exists m', In m' (flat s') /\ is_data m' = true /\ m_id m' = i)).
 Proof.
   intros Hi Hp Hf Hu0 Hc0 HuI HcI Ht s' Hnp He Huq.
-  destruct (run_pp_core c sA t p x m0 ls Hp Hu0 HuI) as [effs [n [Sn [Tx [Hcl [Hfw Hsh]]]]]]. fold s' in Tx, Hcl, Hfw, Hsh.
+  destruct (run_pp_core c sA t p x m0 ls Hp Hu0 HuI He) as [effs [n [Sn [Tx [Hcl [Hfw Hsh]]]]]]. fold s' in Tx, Hcl, Hfw, Hsh.
   assert (Hsq : forall k, SQof s' k = SQof sA k + ks k t p n).
   { intros k. unfold SQof. pose proof (f_equal fst Tx) as T1. pose proof (f_equal snd Tx) as T2. cbn [txn_of fst snd] in T1, T2.
     assert (E1 : fst (txn_effs (txn_of sA) effs) = fst (txn_of sA)) by (rewrite <- T1; exact He).
@@ -357,7 +362,11 @@ Proof.
     intros _. constructor; cbn [PQ PL PB]; auto.
     - intros t p b m Hm. destruct (c_idem c && fresh_pass m && is_data m); auto.
     - intros t p b m sq Hm _. destruct (c_idem c && fresh_pass m && is_data m && negb (m_hasseq m)); auto. }
-  eapply places_flat; [apply (step_places _ True c s ch (flat_places R s H) T); [intros; exact I | exact R7 | exact R6] | | |]; cbn [PQ PL PB]; auto.
+  assert (TA : transfers_any (mkPreds (fun _ => R) (fun _ => R) R) c).
+  { constructor; cbn [PQ PL PB].
+    - intros t p b m sq e Hm. destruct (c_idem c && fresh_pass m && is_data m); auto.
+    - intros t p b m sq e Hm. destruct (c_idem c && fresh_pass m && is_data m && negb (m_hasseq m)); auto. }
+  eapply places_flat; [apply (step_places _ True c s ch (flat_places R s H) T); [intros; exact I | exact R7 | exact R6 | right; exact TA] | | |]; cbn [PQ PL PB]; auto.
 Qed.
 
 Lemma count_id_app i a b : count_id i (a ++ b) = (count_id i a + count_id i b)%nat.
